@@ -37,6 +37,7 @@ def decorate(sc, prof):
     sc = decorate_reg(sc, prof, random.Random(h ^ 0x2E615))
     sc = decorate_dup(sc, prof, random.Random(h ^ 0xD0B1E))
     sc = decorate_params(sc, prof, random.Random(h ^ 0x9A2A35))
+    sc = decorate_early(sc, prof, random.Random(h ^ 0xEA217))
     return sc
 
 
@@ -618,6 +619,118 @@ def decorate_params(sc, prof, rr):
     return sc
 
 
+# --------------------------------------------------------------------------------------------- ninth stage: a message that comes BEFORE its task is registered
+EARLY_WHERE = ["shared", "shared", "shared", "shared", "decorator", "register_task"]
+
+
+def decorate_early(sc, prof, rr):
+    """prof: early_p (default 0: opt-in).  Until now every registration was placed strictly before the first message that names the
+    task (decorate_reg), so the worker never looked a name up BEFORE it was registered and found it LATER.  A real worker does: a
+    shared task whose module is imported lazily / a plugin loaded while the worker runs, a stale message redelivered before the
+    module is there.  One task T (one function, registered once, while listen() runs):
+      sc["late"] entry: dict(name, style, where: shared | decorator | register_task, when: at, at_us = R, early = True)
+      1-2 EARLY messages (m["early"] = True, m["task"] = T, kind ok) arrive at or before R.  The worker either skips such a message
+           like an unknown-task one (its callback looked the name up before R) or executes it like a valid one (its callback started
+           after R: it was queued while the slots were busy, or it is taken late) - BOTH are what the unchanged code may do and
+           neither is claimed: no claim about execution / acknowledgement of an early message (Facts.must_run, ack_in_quantifier
+           exclude it; "never twice" still holds under either outcome).
+      1-3 LATER messages (m["task"] = T, kind ok) arrive strictly after R (arrival = the broker yields it; never before
+           max(at of it and of everything in front of it) >= R + 1): ordinary valid known-task messages with the full claims.
+    mode convert: existing valid messages are re-named (schedule, durations, outcomes, wire decoration stay what they were; needs
+                  two candidates of one style with different arrival instants);
+    mode tail:    new messages are appended behind the last one (the worker has handled the rest of the scenario before);
+                  the horizon grows by what they add."""
+    if rr.random() >= prof.get("early_p", 0):
+        return sc
+    msgs = sc["msgs"]
+    n0 = sum(1 for m in msgs if not m.get("probe"))
+    eff, t = [], 0
+    for m in msgs:
+        t = max(t, m["at"])
+        eff.append(t)               # the broker yields message i not before eff[i]
+    cand = [i for i in range(n0) if msgs[i]["kind"] == "ok" and "task" not in msgs[i]]
+    firsts = []
+    for j in cand:
+        st = msgs[j].get("style", "async")
+        es = [i for i in cand if i < j and msgs[i].get("style", "async") == st and eff[i] < eff[j]]
+        if es:
+            firsts.append((j, es))
+    where = rr.choice(EARLY_WHERE)
+    deltas = [0, 1, 1, 1000, 50_000, POLL, US]
+    if firsts and rr.random() < prof.get("early_convert_p", .5):
+        mode = "convert"
+        j, es = rr.choice(firsts)
+        style = msgs[j].get("style", "async")
+        early = sorted(rr.sample(es, min(len(es), rr.choice([1, 1, 2]))))
+        lo, hi = max(eff[i] for i in early), eff[j] - 1
+        k = rr.random()
+        R_ = min(hi, lo + rr.choice(deltas)) if k < .6 else hi if k < .85 else rr.randrange(lo, hi + 1)
+        later = [j] + [i for i in cand if i > j and msgs[i].get("style", "async") == style and rr.random() < .5][:2]
+    elif "probe_at" in sc:
+        return sc
+    else:
+        mode = "tail"
+        style = "sync" if rr.random() < .15 else "async"
+        t = eff[n0 - 1] if n0 else 0
+        t0 = t
+
+        def fresh(at):
+            return dict(at=at, kind="ok", style=style, dur=0 if style == "sync" else rr.choice([0, 50_000, 300_000, US]),
+                        out=rr.choice(["ret", "ret", "ret", "raise", "nores"]), ack=rr.choice(["none", "sync", "sync", "async", "async"]))
+
+        early, later, new = [], [], []
+        # right behind the last message (the slots may still be busy: the early message's callback may start after the registration),
+        # or when everything taken so far has finished (unless it never ends): the worker is idle, the look-up happens at once
+        idle = sum(max(m["dur"], 0) + m.get("cleanup_us", 0) + m.get("fail_after_us", 0) for m in msgs[:n0]) + US
+        t += rr.choice([0, 1, 50_000, POLL, US, US, idle, idle, idle])
+        for _ in range(rr.choice([1, 1, 2])):
+            early.append(n0 + len(new))
+            new.append(fresh(t))
+            t += rr.choice([0, 0, 1, 1000])
+        R_ = new[-1]["at"] + rr.choice(deltas + [3 * US])
+        t = R_ + 1 + rr.choice([0, 0, 1, 50_000, POLL, US])
+        for _ in range(rr.choice([1, 2, 2, 3])):
+            later.append(n0 + len(new))
+            new.append(fresh(t))
+            t += rr.choice([0, 1, 1000, POLL])
+        msgs[n0:n0] = new
+        sc["horizon_us"] += (t - t0) + sum(m["dur"] for m in new)
+    name = "lazy.mod:deferred_%s" % style
+    for i in early:
+        msgs[i]["task"] = name
+        msgs[i]["early"] = True
+    for i in later:
+        msgs[i]["task"] = name
+    sc["late"] = (sc.get("late") or []) + [dict(name=name, style=style, where=where, when="at", at_us=R_, early=True)]
+    sc.setdefault("shared_default", rr.choice(["before", "before", "after", None]))
+    sc["early"] = dict(name=name, mode=mode)
+    return sc
+
+
+def count_early(rep, sc, obs):
+    """evidence: what the worker really did with the messages of decorate_early (from the raw log)"""
+    if not sc.get("early") or "_crash" in obs:
+        return
+    f = Facts(sc, obs)
+    name = sc["early"]["name"]
+    reg_k = next((k for k, e in enumerate(f.raw) if e[1] == "REG" and e[2] == name), None)
+    for i, m in enumerate(sc["msgs"]):
+        if m.get("task") != name:
+            continue
+        who = "early" if m.get("early") else "later"
+        if i not in f.take_t:
+            rep.count("early:%s-message-never-taken" % who)
+            continue
+        cb_k = next((k for k, e in enumerate(f.raw) if e[1] == "cb.start" and e[2] == i), None)
+        if m.get("early"):
+            rep.count("early:early-message-%s" % ("executed" if f.bodyin.get(i) else "not-executed") + (
+                "(its-callback-started-%s-the-registration)" % ("before" if reg_k is None or cb_k < reg_k else "after") if cb_k is not None
+                else "(no-callback-started)"))
+        else:
+            rep.count("early:later-message-%s" % ("executed" if f.bodyin.get(i) else "not-executed"))
+
+
+
 def typed_params(sc, m):
     """[dict(ann, by, val, ...)] of one message that names a task with annotated message parameters (decorate_params): the
     function's parameters merged with what this message carries for them - the form pipeline_driver.call_args reads"""
@@ -970,7 +1083,7 @@ def ack_in_quantifier(m):
     """messages an exactly-one-acknowledgement clause speaks about: well-formed, known task, delivered with an acknowledge
     callback, no failing middleware hook (hook failure is outside the quantifier; a failing post_save hook is swallowed by the
     code but stays exempt), result-backend failure = an ordinary exception (not CancelledError / another BaseException)"""
-    return (m["kind"] == "ok" and m.get("ack", "none") != "none" and not m.get("probe")
+    return (m["kind"] == "ok" and m.get("ack", "none") != "none" and not m.get("probe") and not m.get("early")
             and not (m.get("pre_fail") or m.get("post_fail") or m.get("onerr_fail") or m.get("psave_fail"))
             and m.get("fail_exc") not in ("cancel", "base")
             and not any(s.get("fail") for d in m.get("mw") or [] for s in d.values()))
@@ -1047,6 +1160,13 @@ def count_inputs(rep, sc):
         if t.get("role"):
             continue
         rep.count("registration:%s/%s" % (t["where"], t["when"] if t["when"] != "at" else "while-listening"))
+    if sc.get("early"):
+        t = next(t for t in sc["late"] if t.get("early"))
+        rep.count("early:scenario-with-messages-naming-a-task-before-AND-after-its-registration")
+        rep.count("early:mode=" + sc["early"]["mode"])
+        rep.count("early:registered-through=" + t["where"])
+        rep.count("early:early-messages=%d" % sum(1 for m in sc["msgs"] if m.get("early")))
+        rep.count("early:later-messages=%d" % sum(1 for m in sc["msgs"] if m.get("task") == t["name"] and not m.get("early")))
     if sc.get("typed"):
         rep.count("task-parameters:scenario-with-annotated-message-parameters")
         for t in sc["late"]:
@@ -1397,7 +1517,8 @@ class Facts:
 
     def must_run(self, i):
         m = self.sc["msgs"][i]
-        return m["kind"] == "ok" and not m.get("pre_fail") and not mw_pre_fails(m)
+        # (an EARLY message - it names a task that is registered only after it arrived, decorate_early - may be skipped or run: no claim)
+        return m["kind"] == "ok" and not m.get("pre_fail") and not mw_pre_fails(m) and not m.get("early")
 
     def processing_at_end(self):
         return [i for i in self.cbstart if i not in self.cbend]
